@@ -53,7 +53,7 @@ def strat_T(tier):
         'ab': st.tuples(U.nice_float(-2, 2), U.nice_float(-2, 2), U.nice_float(-2, 2), U.nice_float(-2, 2)).map(lambda t: [round(v, 3) for v in t]),
         'mag': st.sampled_from([0, 0, 0, 0, -9, -12, 9, -30, 30, -100, 100]),       # decimal exponent of an overall amplitude factor: the relations are homogeneous in the field
         # an earlier transform in the same session that shares the sampling of one axis only (bases cached per axis)
-        'pre': st.sampled_from(['none', 'none', 'share-rows', 'share-cols']),
+        'pre': st.sampled_from(['none', 'none', 'share-rows', 'share-cols', 'failed-calls']),
     })
 
 
@@ -98,7 +98,17 @@ def check_T(case, ctx):
     def T(f, o=tuple(out), s=sh):
         return np.asarray(ctx.call(T0, f, dx_in, efl, lam, dx_out, o, shift=s, method=method))
     pre = case.get('pre', 'none')
-    if pre != 'none':
+    if pre == 'failed-calls':
+        # requests that fail (a 3-D stack where a 2-D field is expected) and are caught by the caller, in both directions and methods:
+        # whatever they leave behind in the shared executors must not change later answers
+        for fn_ in (P.focus_fixed_sampling, P.unfocus_fixed_sampling):
+            for m_ in ('mdft', 'czt'):
+                try:
+                    fn_(np.ones((2, 3, 2), dtype=complex), dx_in, efl, lam, dx_out, tuple(out), shift=sh, method=m_)
+                except Exception:      # noqa - the caller of an invalid request catches whatever comes
+                    pass
+        ctx.label('pre-call:' + pre)
+    elif pre != 'none':
         pshape = (ny, nx + 1) if pre == 'share-rows' else (ny + 1, nx)
         T(np.ones(pshape, dtype=complex))
         ctx.label('pre-call:' + pre)
@@ -315,7 +325,7 @@ def strat_exec(tier):
         'Q': st.one_of(q.map(lambda v: [v, v]), st.tuples(q, q).map(list)), 'scalarQ': st.booleans(), 'pad': st.tuples(pad, pad).map(list),
         'shift': _shift(), 'method': st.sampled_from(['mdft', 'czt']), 'fwd': st.booleans(), 'kind': U.field_kinds, 'seed': U.seeds, 'layout': U.layouts,
         'ab': st.tuples(U.nice_float(-2, 2), U.nice_float(-2, 2), U.nice_float(-2, 2), U.nice_float(-2, 2)).map(lambda t: [round(v, 3) for v in t]),
-        'pre': st.sampled_from(['none', 'none', 'share-rows', 'share-cols']),
+        'pre': st.sampled_from(['none', 'none', 'share-rows', 'share-cols', 'failed-calls']),
     })
 
 
@@ -345,7 +355,14 @@ def check_exec(case, ctx):
         qq = q[0] if (scalarQ and q is Q) else q
         return np.asarray(ctx.call(T0, f, qq, o, s))
     pre = case.get('pre', 'none')
-    if pre != 'none':
+    if pre == 'failed-calls':
+        for fn_ in ('dft2', 'idft2', 'czt2', 'iczt2'):
+            try:
+                getattr(mdft if fn_ in ('dft2', 'idft2') else czt, fn_)(np.ones((2, 3, 2), dtype=complex), Q, tuple(out), sh)
+            except Exception:      # noqa - the caller of an invalid request catches whatever comes
+                pass
+        ctx.label('pre-call:' + pre)
+    elif pre != 'none':
         # an earlier call on the shared executor with the same (n, Q, samples, shift) on one axis and another length on the other axis
         pshape = (ny, nx + 1) if pre == 'share-rows' else (ny + 1, nx)
         ctx.call(T0, np.ones(pshape, dtype=complex), Q, tuple(out), sh)
